@@ -37,7 +37,7 @@ def norm(log):
     return sorted(("add" if n == "alt.add" else n) for (n, _t, _s) in log)
 
 
-def run_pair(env, kind, q, ext, scratch, viol, stats):
+def run_pair(env, kind, q, ext, scratch, viol, stats, via="plain"):
     from liquer.parser import parse
     from lqv import cachecfg, evalcache as E, refinterp as R
     from lqv.checks.c04 import Recorder
@@ -54,7 +54,7 @@ def run_pair(env, kind, q, ext, scratch, viol, stats):
         ref = env.reference(text)
         if ref is None or not ref["ok"]:
             return
-        got, st, log = env.evaluate(text, cache=rec)
+        got, st, log = env.evaluate(text, cache=rec, via=via)
         if got is None:
             return
         stats["evaluations"] += 1
@@ -114,7 +114,7 @@ def run_shard(spec):
 
     if "replay" in spec:
         w = spec["replay"]
-        run_pair(env, w["kind"], w["q"], w["ext"], scratch, make_viol(w), stats)
+        run_pair(env, w["kind"], w["q"], w["ext"], scratch, make_viol(w), stats, via=w.get("via", "plain"))
     else:
         kind = spec["kind"]
         rnd = random.Random("%s/C09/%s/%s" % (spec["seed"], kind, spec["rep"]))
@@ -148,8 +148,13 @@ def run_shard(spec):
             if oe is None or not oe.ok or oe.volatile or not oe.caching:
                 continue
             done += 1
-            case = {"kind": kind, "q": q, "ext": ext}
-            run_pair(env, kind, q, ext, scratch, make_viol(case), stats)
+            via = rnd.choice(["plain", "plain", "plain", "debug", "cache_arg"])
+            if rnd.random() < 0.2 and not q.startswith(("-R", "res.txt", "dir/")) and not q.startswith("/"):
+                # the same queries spelled as absolute paths (their keys carry the leading '/')
+                q, ext = "/" + q, "/" + ext
+                env.count("absolute_queries")
+            case = {"kind": kind, "q": q, "ext": ext, "via": via}
+            run_pair(env, kind, q, ext, scratch, make_viol(case), stats, via=via)
             if not samples and done == 3:
                 samples.append(case)
     counters = dict(env.counters)
